@@ -43,13 +43,14 @@ type Schedule struct {
 	Target   string   `json:"target,omitempty"` // yield site for "targeted", e.g. exec:e_some_lint
 	Horizon  int      `json:"horizon,omitempty"`
 	Explicit []Switch `json:"explicit,omitempty"`
+	Stmt     bool     `json:"stmt,omitempty"` // fine-grain build: the statement sites of rule bodies and helpers are yield sites too
 }
 
 func (s *Schedule) summary() any {
 	if s == nil {
 		return nil
 	}
-	m := map[string]any{"strategy": s.Strategy, "p": s.P, "depth": s.Depth, "target": s.Target, "explicit_switches": len(s.Explicit)}
+	m := map[string]any{"strategy": s.Strategy, "p": s.P, "depth": s.Depth, "target": s.Target, "explicit_switches": len(s.Explicit), "statement_grain": s.Stmt}
 	if len(s.Explicit) > 0 {
 		e := s.Explicit
 		if len(e) > 12 {
@@ -194,7 +195,7 @@ func (s *sched) decide(c int, site string, finished bool) int {
 }
 
 func siteInLint(site string) bool {
-	return strings.HasPrefix(site, "fn:lints/") || strings.HasPrefix(site, "fn:util.") || strings.HasPrefix(site, "new:") || strings.HasPrefix(site, "conf:") || strings.HasPrefix(site, "applies:") || strings.HasPrefix(site, "exec:")
+	return strings.HasPrefix(site, "st:") || strings.HasPrefix(site, "fn:lints/") || strings.HasPrefix(site, "fn:util.") || strings.HasPrefix(site, "new:") || strings.HasPrefix(site, "conf:") || strings.HasPrefix(site, "applies:") || strings.HasPrefix(site, "exec:")
 }
 
 // Yield is called by client c at a yield site. No lock of the code under test is held here.
@@ -492,6 +493,8 @@ func genSchedPair(seed uint64, prop, tier, mode string) *Plan {
 	if g.Chance(0.3) {
 		p.Schedule = &Schedule{Strategy: "bernoulli", P: 0.5, Seed: g.U64()}
 	}
+	// half of the pairs are interleaved statement by statement
+	p.Schedule.Stmt = g.Chance(0.5)
 	return p
 }
 
@@ -901,6 +904,17 @@ func genSched(seed uint64, prop, tier, mode string) *Plan {
 		case 3:
 			sc.Strategy = "rr"
 		}
+		// statement grain: every statement of a rule body or helper is a place to switch (the window
+		// between two statements of one function, which function-entry yields cannot open)
+		if g.Chance(0.35) {
+			sc.Stmt = true
+			if sc.Strategy == "targeted" && g.Chance(0.5) {
+				sc.Target = pick(g, []string{"st:util/", "st:lints/"})
+			}
+			if sc.Strategy == "pct" {
+				sc.Horizon *= 4
+			}
+		}
 	}
 	p.Schedule = sc
 	return p
@@ -1122,6 +1136,9 @@ func runSched(p *Plan, keepLog bool, mode string) *RunResult {
 		installFineGrain(s)
 		defer uninstallFineGrain()
 		res.Counters.inc("finegrain_runs")
+		if sc.Stmt {
+			res.Counters.inc("statement_grain_runs")
+		}
 	}
 	if !free {
 		first := 0
